@@ -60,6 +60,7 @@ class Attribute:
         self._units = units
         self._value = value
         self._value_is_default = False  #: True while the value is a default the library filled in at a write
+        self._units_is_default = False  #: the same for the units
         self._converter = converter  # to convert value
         self.parent_eflr = parent_eflr
 
@@ -161,6 +162,7 @@ class Attribute:
             raise RuntimeError(f"Units of {self.__class__.__name__} cannot be set")
 
         self._units = self._unit_checker(units)  # the checker returns the unit string (also for Unit enum members)
+        self._units_is_default = False
 
     @property
     def count(self) -> Union[int, None]:
